@@ -3,7 +3,7 @@
 pub open spec fn all_zero(s: Seq<u8>) -> bool { forall|i: int| 0 <= i < s.len() ==> s[i] == 0u8 }
 impl Node {
     pub open spec fn canonical(&self) -> bool {
-        &&& self.parent == flat_tree::spec_parent(self.index)
+        &&& self.parent == (if flat_tree::spec_depth(self.index) < 62 { flat_tree::spec_parent(self.index) } else { u64::MAX })
         &&& self.data is Some && self.data->Some_0@.len() == 0
         &&& self.blank == all_zero(self.hash@)
     }
